@@ -19,8 +19,8 @@ Pat(k, base) == [i \in 1..k |-> base + (i % 7)]
 Clip(S) == S \cap 1..255
 Lens(s) == Clip({1, 2, 3, s.w - s.col, s.w - s.col + 1, s.w - s.col + 2, s.w, s.w + 1, 2 * s.w - s.col + 1,
                  (s.bot - s.row) * s.w + (s.w - s.col + 1), (s.bot - s.row) * s.w + (s.w - s.col + 2), 255})
-Rs(s) == {0, 1, 2, s.top - 1, s.top, s.bot, s.bot + 1, s.h - 1, s.h, s.h + 1, 255} \cap 0..300
-Cs(s) == {0, 1, 2, s.w - 1, s.w, s.w + 1, 255}
+Rs(s) == {-1, 0, 1, 2, s.top - 1, s.top, s.bot, s.bot + 1, s.h - 1, s.h, s.h + 1, 255} \cap -1..300
+Cs(s) == {-1, 0, 1, 2, s.w - 1, s.w, s.w + 1, 255}
 ModeW(m, w) == CASE m = 0 -> (IF w = 20 THEN 40 ELSE w) [] m \in {1, 7} -> 40 [] OTHER -> 80
 \* the catalogue of one kind of statement in model state s
 ActionsOf(s, k) ==
